@@ -703,6 +703,10 @@ pub fn row_leaf(e: &SerializationError) -> String {
         BuiltinSerializationError as RSE, BuiltinSerializationErrorKind as RSK, BuiltinTypeCheckError as RTE,
         BuiltinTypeCheckErrorKind as RTK,
     };
+    // add_value wraps its TooManyValues error in a second SerializationError
+    if let Some(inner) = e.downcast_ref::<SerializationError>() {
+        return row_leaf(inner);
+    }
     if let Some(s) = e.downcast_ref::<RSE>() {
         return match &s.kind {
             RSK::TooManyValues => "TooManyValues".into(),
